@@ -446,9 +446,31 @@ func NewEffects(m *Model) *Effects {
 						if actual == nil {
 							continue
 						}
+						// a store into the callee's own copy of a by-value parameter never reaches the caller
+						if !cs.Path.Deref {
+							continue
+						}
 						ap := m.AccessPath(f, actual)
 						lifted = cs
-						lifted.Path = Path{Kind: ap.Kind, Index: ap.Index, Var: ap.Var, Call: ap.Call, Deref: true,
+						// Through a pointer parameter/receiver the store lands in the memory the actual designates. When the
+						// actual is an addressable value (implicit &x for a pointer receiver, or an explicit &x) and the
+						// callee's path stays inside the struct, that memory is the variable x itself: no pointer hop.
+						deref := true
+						if t := m.Info.TypeOf(actual); t != nil {
+							_, actualIsPtr := t.Underlying().(*types.Pointer)
+							explicitAddr := false
+							if u, ok := ast.Unparen(actual).(*ast.UnaryExpr); ok && u.Op == token.AND {
+								explicitAddr = true
+							}
+							if (!actualIsPtr || explicitAddr) && m.keysInStruct(cs.Path.Keys) {
+								switch t.Underlying().(type) {
+								case *types.Slice, *types.Map, *types.Chan, *types.Interface:
+								default:
+									deref = ap.Deref
+								}
+							}
+						}
+						lifted.Path = Path{Kind: ap.Kind, Index: ap.Index, Var: ap.Var, Call: ap.Call, Deref: deref,
 							Keys: append(append([]string{}, ap.Keys...), cs.Path.Keys...)}
 					case RootGlobal, RootCall, RootUnknown:
 						// stores to globals or through call results/unknown roots are effects of the caller too
@@ -473,6 +495,28 @@ func NewEffects(m *Model) *Effects {
 		}
 	}
 	return e
+}
+
+// keysInStruct: the field path stays inside the memory of its root struct (no hop through a pointer, slice, map,
+// channel or interface field and no element access).
+func (m *Model) keysInStruct(keys []string) bool {
+	for i, k := range keys {
+		if k == "[]" {
+			return false
+		}
+		if i == len(keys)-1 {
+			break
+		}
+		fv := m.FieldByKey(k)
+		if fv == nil {
+			return false
+		}
+		switch fv.Type().Underlying().(type) {
+		case *types.Pointer, *types.Slice, *types.Map, *types.Chan, *types.Interface:
+			return false
+		}
+	}
+	return true
 }
 
 // actualFor returns the argument expression bound to parameter idx (-1: receiver) at the call.
